@@ -900,6 +900,10 @@ def rule_lists_kept_whole(ctx, rep: Report, rid="G10", package="gtwrap/interface
                     def whole_list(b_) -> bool:
                         if isinstance(b_, (ast.Name, ast.Attribute)):
                             return True
+                        # `xs or ()` / `xs or []`: the list itself, or nothing where there is none
+                        if isinstance(b_, ast.BoolOp) and isinstance(b_.op, ast.Or) and whole_list(b_.values[0]) and \
+                                all(isinstance(x, (ast.Tuple, ast.List)) and not x.elts for x in b_.values[1:]):
+                            return True
                         if isinstance(b_, ast.Call) and isinstance(b_.func, ast.Attribute) and b_.func.attr in ("asList", "as_list") and not b_.args:
                             return True
                         # several whole lists walked side by side (their alignment is G14's business), or a list with its positions
